@@ -37,7 +37,7 @@ func init() {
 	register(&PropDef{
 		ID:          "C07",
 		Level:       "other",
-		Explanation: "The numeric lower bound trusts time.AfterFunc; decided is what is armed and what is gated on it: a delayed job is never started by the request itself (admission table: delay>0 ∧ ¬ignore ⇒ ≠ Start on all order types; the accept function passes ignore=false); the timer is armed iff the job's own delay > 0, with the job's own StartDelay (taken from the definition at accept time) and a callback that addresses the job's own id; in the dequeue function every path to the start call takes the `head.startTimer == nil` edge; the timer is cleared only by the expiry handler or where the job leaves the list for good; the expiry handler clears and re-runs the dequeue (no second delay); under replace the previous job is marked canceled (hence refused by the start function), its slot is overwritten by the newest job at the last index; the retention decision keeps every waiting job on all order types of its inputs (the expiry handler finds the job by id, so a delayed job removed from the index would never start).",
+		Explanation: "The numeric lower bound trusts time.AfterFunc; decided is what is armed and what is gated on it: a delayed job is never started by the request itself (admission table: delay>0 ∧ ¬ignore ⇒ ≠ Start on all order types; the accept function passes ignore=false); the timer is armed iff the job's own delay > 0, with the job's own StartDelay (taken from the definition at accept time) and a callback that addresses the job's own id; in the dequeue function every path to the start call takes the `head.startTimer == nil` edge; the timer is cleared only by the expiry handler or where the job leaves the list for good; the expiry handler clears and re-runs the dequeue (no second delay); under replace the previous job is marked canceled (hence refused by the start function), its slot is overwritten by the newest job at the last index; the retention decision keeps every waiting job on all order types of its inputs (the expiry handler finds the job by id, so a delayed job removed from the index would never start). SLOT ACCOUNTING — the running predicate is exactly started ∧ ¬completed ∧ ¬canceled (8-row table): a slot is taken neither longer nor shorter than the job runs, so an expired delay is honoured as soon as a slot is really free.",
 		Trusted:     []string{"time.AfterFunc does not fire early", "C13"},
 		NotDecided:  []string{"the numeric bound ≥ d", "that the newest job eventually runs (liveness)"},
 		Check: func(w *World, r *Report) {
@@ -55,6 +55,9 @@ func init() {
 			ro.slotEnd(r, "slot-end")
 			// a waiting (delayed) job is never removed by retention: the expiry handler looks the job up by id
 			retentionTable(w, r)
+			// "starts as soon as a slot is free": a slot counts as taken exactly while a job is started ∧ ¬completed ∧ ¬canceled
+			ro.runPredTable(r, "running.predicate-table", true)
+			r.Floor("running.predicate-table", 1)
 			r.Floor("table.", 1)
 			r.Floor("accept.", 6)
 			r.Floor("dequeue.timer-gate", 1)
@@ -64,7 +67,7 @@ func init() {
 	register(&PropDef{
 		ID:          "C15",
 		Level:       "other",
-		Explanation: "Agreement of sibling code paths, decided from the source: SCHEDULABLE — for every action constant the admission function can return, the schedulable predicate answers true exactly when the accept function does not reject that action, and both ask the same admission question (pipeline, ignore=false); RUNNING — the reported flag is ∃ job in the pipeline's list with the running predicate, whose 8-row table equals started ∧ ¬completed ∧ ¬canceled, and the admission count uses the same predicate; REGISTERED — every success return of the accept function passes the stores into both indexes, and jobs are deleted from the id index only on the retention path; ORDER — the job list comparator is newest-first, and every slice filled while ranging over a map in an API-reported order is sorted before its first use (no map-order leak); the job's task list is built by a plain function of the definition's tasks looked up in the accept function (not a method of the runner: the order cannot depend on the runner's history).",
+		Explanation: "Agreement of sibling code paths, decided from the source: SCHEDULABLE — for every action constant the admission function can return, the schedulable predicate answers true exactly when the accept function does not reject that action, and both ask the same admission question (pipeline, ignore=false); RUNNING — the reported flag is ∃ job in the pipeline's list with the running predicate, whose 8-row table equals started ∧ ¬completed ∧ ¬canceled, and the admission count uses the same predicate; REGISTERED — every success return of the accept function passes the stores into both indexes, and jobs are deleted from the id index only on the retention path; ORDER — the job list comparator is newest-first, and every slice filled while ranging over a map in an API-reported order is sorted before its first use (no map-order leak); the job's task list is built by a plain function of the definition's tasks looked up in the accept function (not a method of the runner: the order cannot depend on the runner's history). NEVER UNLISTED — the retention decision table (the only path that deletes from the indexes) never removes a waiting or running job: what is reported running stays reported.",
 		Trusted:     []string{"C13", "sort.* sorts"},
 		NotDecided:  []string{"numeric order of timestamps (created ≤ start ≤ end)", "that the dependency sort is topological"},
 		Check: func(w *World, r *Report) {
@@ -80,6 +83,9 @@ func init() {
 			// "snapshot": the task list of a job is a function of the definition looked up at accept time only (no runner state, no cache)
 			ro.acceptEffects(r, map[string]bool{"registered": true, "snapshot": true})
 			ro.whoDeletesJobs(r, "registered.who-deletes")
+			// … and that path never takes a job that is waiting or still running out of the indexes
+			retentionTable(w, r)
+			r.Floor("table.retention", 1)
 			ro.orderRules(r, "order")
 			r.Floor("schedulable", 5)
 			r.Floor("running", 4)
